@@ -37,24 +37,3 @@ pub proof fn lemma_chunk_val_ok_{I}_{J}(data: Seq<{I}>, lim: int, idx: int)
     let v = lemma_bits_to_word{Y}(p, {J.bits});
     assert(chunk_is_{I}_{J}(data, lim, idx, v));
 }
-/// the operand re-chunked into {J} words (zero-extended): n chunk values
-pub open spec fn chunk_words_{I}_{J}(data: Seq<{I}>, lim: int, n: nat) -> Seq<{J}> {
-    Seq::new(n, |k: int| chunk_val_{I}_{J}(data, lim, k))
-}
-/// ... and their word value is the value of the low n*{J.bits} bits of the operand
-pub proof fn lemma_chunk_words_val_{I}_{J}(data: Seq<{I}>, lim: int, n: nat)
-    requires 0 <= lim <= data.len() * {I.bits}
-    ensures words_val{Y}(chunk_words_{I}_{J}(data, lim, n), n) == fval(|b: int| 0 <= b < lim && bit_at{X}(data, b), {J.bits} * n)
-{
-    let cw = chunk_words_{I}_{J}(data, lim, n);
-    let g = |b: int| 0 <= b < lim && bit_at{X}(data, b);
-    lemma_seq_val{Y}(cw, n);
-    assert forall|b: int| 0 <= b < {J.bits} * n implies #[trigger] seqf{Y}(cw)(b) == g(b) by {
-        let k = b / {J.bits};
-        let t = (b % {J.bits}) as nat;
-        lemma_chunk_val_ok_{I}_{J}(data, lim, k);
-        assert(cw[k] == chunk_val_{I}_{J}(data, lim, k));
-        assert(wbit{Y}(cw[k], t) == (k * {J.bits} + t < lim && bit_at{X}(data, k * {J.bits} + t)));
-    }
-    lemma_fval_ext(seqf{Y}(cw), g, {J.bits} * n);
-}
